@@ -40,6 +40,9 @@
     trace_changes_nothing map_text_changes_only_selected_text map_text_preserves_wellnested
     sanitizer_wellnested translator_wellnested
     apply_leaves_origin apply_appends_one_link history_keeps_chains
+    lazy_trace_semantics
+    emptytag_wellnested whitespace_filter_wellnested doctype_inserter_wellnested
+    ns_flattener_wellnested_partial ns_flattener_wellnested_ns_partial
 -/
 import Genshi.Lemmas.TfSegs2
 import Genshi.Lemmas.TfChains
@@ -48,6 +51,8 @@ import Genshi.Lemmas.TfFillSpec
 import Genshi.Lemmas.TfLazyDiv
 import Genshi.Lemmas.TfLazyAgree
 import Genshi.Lemmas.TfOther
+import Genshi.Lemmas.TfTrace
+import Genshi.Lemmas.TfSerial
 namespace Genshi.Props.C20
 open Genshi Genshi.Tf
 
@@ -496,15 +501,37 @@ theorem buffer_two_writers_ill_nested :
       [.start (qn 'r') [], .start (qn 'a') [], .end_ (qn 'a'), .end_ (qn 'r')] = some out ∧ ¬ WellNested out :=
   ⟨[.start (qn 'a') [], .end_ (qn 'a'), .end_ (qn 'r')], by decide, by decide⟩
 
+/-! ## the lazily evaluated chain, link by link (`Model/TfTrace.lean`)
+
+  Writer-then-reader chains without a barrier (`copy(b) … after(b)`: the documented usage) are not
+  `stagewise`: the reader sees the buffer as it is at the moment of the injection, not its final
+  content.  Their compositional reading is the trace semantics: what travels from one link to the
+  next is the list of items yielded INTERLEAVED with the buffer effects in the order of time. -/
+
+/-- The lazily evaluated chain (`runLazy`, the push pipeline, any fuel) equals its link-by-link
+    reading `runTrace` — same marked stream, same buffers, failure exactly when it fails — for EVERY
+    chain in which, between two `buffer()` barriers, no link writes a buffer that it or a link before
+    it reads (`lazyRaw`: reads come after writes; this contains every `stagewise` chain and every
+    writer-then-reader chain, and excludes exactly the feedback finding). -/
+theorem lazy_trace_semantics (F : Nat) (ops : List Op) (b : BufF) (s : MStream) (h : lazyRaw ops = true) :
+    (runLazy F ops b s).toOption = runTrace ops b s := lazy_trace F ops b s h
+
+/-- non-vacuity: `Transformer('a').copy(b).after(b)` on `<r><a/></r>` is not `stagewise`, reads come
+    after writes, and the trace semantics gives `<r><a/><a/></r>` (the copy of THIS selection). -/
+example :
+    stagewise [] [] [.select [.none, .hit, .none], .copy 0 false, .after (.buf 0)] = false ∧
+    lazyRaw [.select [.none, .hit, .none], .copy 0 false, .after (.buf 0)] = true ∧
+    (runTrace [.select [.none, .hit, .none], .copy 0 false, .after (.buf 0)] (fun _ => [])
+        (markAll [.start (qn 'r') [], .start (qn 'a') [], .end_ (qn 'a'), .end_ (qn 'r')])).map (fun r => unmark r.1) =
+      some [.start (qn 'r') [], .start (qn 'a') [], .end_ (qn 'a'), .start (qn 'a') [], .end_ (qn 'a'),
+        .end_ (qn 'r')] := by decide
+
 /-! ## the other built-in stream filters: well-nestedness theorems of their owners, re-used
 
   One obligation per filter the property names: the Transformer (`chain_wellnested`,
   `lazy_chain_wellnested`), the HTMLFormFiller (`filler_wellnested_partial`, `filler_confined_partial`), the
-  sanitizer and the translation filter below.  The serializers' internal filters (EmptyTagFilter,
-  NamespaceFlattener, WhitespaceFilter, DocTypeInserter) are stated by C08/C09 on their own event types as
-  "flattening of a forest ↦ an explicit function of the forest" (`Genshi.Output.emptyTag_flattenList`,
-  `filtered_forest`); no `balance` is defined for those types, the oracle checks nesting in → out on the
-  real code (notes/C20.md, open end 1). -/
+  sanitizer and the translation filter below, and the serializers' internal filters (EmptyTagFilter,
+  WhitespaceFilter, DocTypeInserter: full; NamespaceFlattener: `_partial`) further down. -/
 
 /-- HTMLSanitizer (owner: C06, `Genshi.San.wellNested_sanitize`). -/
 theorem sanitizer_wellnested {cfg : Genshi.San.Cfg} {s o : Stream} (hs : WellNested s)
@@ -518,6 +545,66 @@ theorem translator_wellnested (cfg : Genshi.I18n.Cfg) (cat : Genshi.I18n.Catalog
     WellNested (Genshi.I18n.tTags (Genshi.I18n.flattenNodes ns)) ∧
     WellNested (Genshi.I18n.tTags (Genshi.I18n.trList cfg cat ctx tt ta 0 (Genshi.I18n.flattenNodes ns))) :=
   Genshi.I18n.translate_wellNested cfg cat ctx tt ta ns h
+
+/-! ### the serializers' internal filters, over the shared `Event` vocabulary
+
+  `Genshi.Output` models them on its own event types (`QEv` before, `FEv` after the namespace
+  flattener; `EMPTY` is a kind of its own).  `toStreamQ` / `toStreamF` (`Lemmas/TfSerial.lean`) read
+  such a stream back as a `Stream` of the shared vocabulary — an `EMPTY` event is a START followed by
+  its END, a flattened name `n` is the `QName` without namespace — so that `WellNested` / `balance`
+  speak about them. -/
+
+open Genshi.Output Genshi.Tf.Serial in
+/-- EmptyTagFilter: every well-nested stream (not only a flattened forest) comes out well nested;
+    more precisely the output has the balance of the input. -/
+theorem emptytag_wellnested (s : Stream) (h : WellNested s) :
+    WellNested (toStreamQ (emptyTag none s)) ∧ balance [] (toStreamQ (emptyTag none s)) = balance [] s :=
+  ⟨Genshi.Tf.Serial.emptytag_wellnested s h, emptytag_balance_eq s h⟩
+
+open Genshi.Output Genshi.Tf.Serial in
+/-- WhitespaceFilter, for every normalisation function, configuration, state and input: every event
+    that is not a TEXT event is passed on unchanged and in order, so the balance is that of the input. -/
+theorem whitespace_filter_wellnested (norm : Bool → Str → Str) (cfg : WsCfg) (st : WsSt) (es : List QEv) :
+    (WellNested (toStreamQ (wsFilterG norm cfg st es)) ↔ WellNested (toStreamQ es)) ∧
+    (wsFilterG norm cfg st es).filter notText = es.filter notText :=
+  ⟨Genshi.Tf.Serial.whitespace_filter_wellnested norm cfg st es, whitespace_filter_skeleton norm cfg es st⟩
+
+open Genshi.Output Genshi.Tf.Serial in
+/-- DocTypeInserter inserts one DOCTYPE event and nothing else. -/
+theorem doctype_inserter_wellnested (d : Str × Option Str × Option Str) (es : List FEv) :
+    WellNested (toStreamF (docTypeInsert d es)) ↔ WellNested (toStreamF es) :=
+  doctype_inserter_wellnested_iff d es
+
+/-
+  NamespaceFlattener.  Full statement: `WellNested (toStreamQ es) → flatten c st es = some out →
+  WellNested (toStreamF out)`.  It is FALSE for the filter as it is: the prefixed name written for an
+  END is computed from the namespace bindings in force when the END arrives, so START_NS/END_NS events
+  placed inside an element, or a prefix re-bound between START and END, give an END named differently
+  from its START.  Proved (`_partial`): on the domains of the owners' theorems (`filtered_forest`:
+  flattenings of namespace-free forests; `filtered_forestU`: all elements in one namespace `u`), the
+  whole filter chain EmptyTagFilter → NamespaceFlattener delivers a well-nested stream.
+-/
+open Genshi.Output Genshi.Tf.Serial in
+theorem ns_flattener_wellnested_partial (m : Method) (dropd : Bool) (ns : List Node)
+    (hok : okList ns = true) (hns : forestNsFree ns = true) :
+    ∃ out, filtered m { strip := false, cache := false, doctype := none, dropXmlDecl := dropd }
+        (flattenList ns) = some out ∧ WellNested (toStreamF out) :=
+  Genshi.Tf.Serial.ns_flattener_wellnested_partial m dropd ns hok hns
+
+open Genshi.Output Genshi.Tf.Serial in
+theorem ns_flattener_wellnested_ns_partial (m : Method) (dropd : Bool) (u : Str) (hu : u ≠ xmlNs)
+    (ns : List Node) (hok : okList ns = true) (hns : forestUniformNs u ns = true) :
+    ∃ out, filtered m { strip := false, cache := false, doctype := none, dropXmlDecl := dropd }
+        (flattenList ns) = some out ∧ WellNested (toStreamF out) :=
+  ns_flattener_wellnested_partialU m dropd u hu ns hok hns
+
+open Genshi.Output Genshi.Tf.Serial in
+/-- non-vacuity: `<a>x<b k="v"/><c><b>y</b></c></a>` through the EmptyTagFilter (one EMPTY event) -/
+example :
+    let s : Stream := [.start (qn 'a') [], .text ['x'] false, .start (qn 'b') [(qn 'k', ['v'])], .end_ (qn 'b'),
+      .start (qn 'c') [], .start (qn 'b') [], .text ['y'] false, .end_ (qn 'b'), .end_ (qn 'c'), .end_ (qn 'a')]
+    WellNested s ∧ (emptyTag none s).contains (.empty (qn 'b') [(qn 'k', ['v'])]) = true ∧
+    WellNested (toStreamQ (emptyTag none s)) := by decide
 
 /-! ## the form filler -/
 
